@@ -196,6 +196,7 @@ def doc_model(forms):
 def generics_decl(d):
     parts = []
     if d.lifetime: parts.append("'a")
+    if getattr(d, 'lifetime2', False): parts.append("'b")
     for n, b, df in d.generics:
         s = n
         if b: s += ': ' + b
@@ -208,6 +209,7 @@ def generics_decl(d):
 def self_src(d):
     parts = []
     if d.lifetime: parts.append("'a")
+    if getattr(d, 'lifetime2', False): parts.append("'b")
     parts += [n for n, _, _ in d.generics]
     if d.constp: parts.append('N')
     return d.name + (('<%s>' % ', '.join(parts)) if parts else '')
@@ -216,6 +218,7 @@ def self_src(d):
 def inst_src(d, inst):
     parts = []
     if d.lifetime: parts.append("'static")
+    if getattr(d, 'lifetime2', False): parts.append("'static")
     parts += [src(inst[n]) for n, _, _ in d.generics]
     if d.constp: parts.append(str(inst['N']))
     return d.name + (('<%s>' % ', '.join(parts)) if parts else '')
@@ -1003,6 +1006,17 @@ def gen_definitions(thorough):
     add(D('struct', 'named', named_members([SELFVEC, VEC(PARAM('T'))]), generics=[T], inst=u8), 'Vec<Self<T>> + Vec<T>')
     add(D('enum', variants=[V('Nil', 'unit'), V('Cons', 'tuple', tuple_members([PARAM('T'), SELFOPT]))], generics=[T], inst=u8), 'cons list')
     add(D('struct', 'named', named_members([SELFOPT, PH(PARAM('T'))]), generics=[T], skip_params=['T'], inst=u8, noinfo_inst=noinfo), 'self-recursive + skip_type_params(T)')
+    # two lifetimes, lifetime bounds in the where clause, nested generic arguments, maps over two parameters
+    d2 = D('struct', 'named', named_members([('strref', 'a'), ('strref', 'b'), PARAM('T')]), generics=[T], lifetime=True, where=["T: 'a"], inst=u8)
+    d2.lifetime2 = True
+    add(d2, "two lifetimes {&'a str, &'b str, T} where T: 'a")
+    d3 = D('enum', variants=[V('A', 'tuple', tuple_members([('cowref', 'b')])), V('B', 'named', named_members([('innerlt', 'a'), PARAM('T')]))], generics=[T], lifetime=True, skip_params=['T'], inst=u8)
+    d3.lifetime2 = True
+    add(d3, "two lifetimes enum + skip_type_params(T) with T used directly")
+    add(D('struct', 'named', named_members([NAMED('Inner', NAMED('Inner', PARAM('T'))), OPT(VEC(ARR(PARAM('T'), 2)))]), generics=[T], inst=u8), 'nested generic arguments {Inner<Inner<T>>, Option<Vec<[T; 2]>>}')
+    add(D('struct', 'named', named_members([NAMED('BTreeMap', PARAM('T'), VEC(PARAM('U'))), NAMED('BTreeSet', PARAM('U'))]), generics=[T, U], inst=u8), 'maps and sets over two parameters {BTreeMap<T, Vec<U>>, BTreeSet<U>}')
+    add(D('struct', 'tuple', tuple_members([NAMED('Result', PARAM('T'), PARAM('U')), NAMED('Range', PARAM('T'))]), generics=[('T', 'PartialOrd + core::fmt::Debug', None), U], inst=u8), 'Result<T, U> and Range<T> with the bounds Range needs')
+    add(D('struct', 'named', named_members([BOX(PARAM('T')), NAMED('Rc', PARAM('U')), NAMED('Arc', VEC(PARAM('T')))]), generics=[T, U], skip_params=['U'], inst=u8), 'pointer wrappers of parameters {Box<T>, Rc<U>, Arc<Vec<T>>} + skip_type_params(U)')
     # lifetimes / const / defaults / where
     add(D('struct', 'named', named_members([('strref', 'a'), PARAM('T'), ('constarr', PARAM('U'))]), generics=[T, ('U', 'Clone', None)], lifetime=True, constp=True, where=['T: Clone'], inst=u8), 'lifetime + const + inline bound + where')
     add(D('enum', variants=[V('A', 'named', named_members([('strref', 'a')])), V('B', 'tuple', tuple_members([('constarr', I('u8'))]))], lifetime=True, constp=True, inst=u8), 'enum with lifetime and const parameter')
